@@ -1,6 +1,8 @@
 """C16 – timeout wrapper: real `haiway.timeout` on the virtual loop vs `hwmodel timeout`.
 
-case:  d=<n> k=<val|exc|base|self|fval|fexc|fbase> ig=<0|1> D=<n> c=<n|-> [st=<n>]
+case:  d=<n> k=<val|exc|base|self|fval|fexc|fbase> ig=<0|1> D=<n> c=<n|-> [st=<n>] [sc=1]
+   sc  the call is made inside `async with ctx.scope("s"):` (nothing observable may change: the function's own outcome
+       still reaches the caller – the scope's task group must not get involved; the model never sees `sc`)
    st  the function handed to `timeout(D)` is itself a timeout wrapper, `timeout(st)(fn)`, with `st` far beyond every other
        instant: stacking must not change anything observable (a wrapped callable is an object with attributes of its own;
        the model never sees `st`)
@@ -99,7 +101,7 @@ def stacked(case: str) -> int | None:
 
 
 def strip_st(case: str) -> str:
-    return " ".join(t for t in case.split() if not t.startswith("st="))
+    return " ".join(t for t in case.split() if not t.startswith(("st=", "sc=")))
 
 
 def model_input(case: str, out: str) -> str:
@@ -161,6 +163,9 @@ def generate(rng, tier):
     # the wrapped callable is itself a timeout wrapper with a far deadline: nothing observable may change
     for d, k, ig, dl, c in itertools.product((0, 1, 3, 6), BASE_KINDS, (False, True), (0, 1, 3, 4, 8), (None, 0, 2, 3, 7)):
         yield fmt(d, k, ig, dl, c) + " st=1000"
+    # the call is made inside a scope: the function's outcome still reaches the caller unchanged
+    for d, k, ig, dl, c in itertools.product((0, 1, 3), BASE_KINDS, (False, True), (0, 2, 4), (None, 0, 2, 3)):
+        yield fmt(d, k, ig, dl, c) + " sc=1"
     # two overlapping calls through ONE wrapper: an early short one and a later one, all orders of completion
     for dl, s2, d1, k1, d2, k2, ig2, c2 in itertools.product((2, 4), (0, 1, 2), (1, 3), ("val", "exc"), (0, 2, 9),
                                                              BASE_KINDS, (False, True), (None, 1, 4)):
@@ -295,8 +300,16 @@ def run_real(case: str) -> str:
         at: list = [None] * n
         tm: list = [None] * n
 
+        in_scope = (not multi) and "sc=1" in case.split()
+
+        async def scoped(i: int):
+            from haiway import ctx
+
+            async with ctx.scope("s"):
+                return await fn(i)
+
         def start(i: int) -> None:
-            callers[i] = loop.create_task(fn(i))
+            callers[i] = loop.create_task(scoped(i) if in_scope else fn(i))
             callers[i].add_done_callback(lambda _t, i=i: when.__setitem__(i, clock.now - t0 - calls[i][0]))
 
         def cancel(i: int) -> None:
